@@ -112,7 +112,8 @@ def _walk(n: StateNode):
 def _guard_nf(g) -> dict:
     if g is None:
         return {"type": "", "params": None, "kids": [], "comp": False}
-    return {"type": g.type, "params": g.params, "kids": [_guard_nf(k) for k in g.children], "comp": bool(g.is_composite)}
+    return {"type": g.type, "params": None if g.is_composite else g.params, "kids": [_guard_nf(k) for k in g.children],
+            "comp": bool(g.is_composite)}
 
 
 def _acts_nf(acts) -> list:
